@@ -146,20 +146,24 @@ class P:
         return lhs
 
     def unary(self, nostruct):
-        if self.opt("-"):
-            return ("neg", self.unary(nostruct))
-        if self.opt("!"):
-            return ("not", self.unary(nostruct))
-        if self.opt("*"):
-            return self.unary(nostruct)          # deref of a Copy value
-        if self.opt("&"):
-            self.opt("mut")
-            return self.unary(nostruct)
-        e = self.postfix(self.primary(nostruct))
+        # `as` binds weaker than the prefix operators: `-x as u8` is `(-x) as u8`
+        e = self.prefix(nostruct)
         while self.at("as"):
             self.next()
             e = ("cast", e, self.ty())
         return e
+
+    def prefix(self, nostruct):
+        if self.opt("-"):
+            return ("neg", self.prefix(nostruct))
+        if self.opt("!"):
+            return ("not", self.prefix(nostruct))
+        if self.opt("*"):
+            return self.prefix(nostruct)          # deref of a Copy value
+        if self.opt("&"):
+            self.opt("mut")
+            return self.prefix(nostruct)
+        return self.postfix(self.primary(nostruct))
 
     def postfix(self, e):
         while True:
@@ -200,6 +204,13 @@ class P:
             if len(items) == 1 and not trailing:
                 return ("paren", items[0])
             return ("tuple", items)
+        if self.at("|"):
+            self.next()
+            ps = []
+            while not self.at("|"):
+                ps.append(self.next()[1]); self.opt(",")
+            self.eat("|")
+            return ("closure", ps, self.expr())
         if self.opt("["):
             items = []
             while not self.at("]"):
@@ -519,6 +530,8 @@ class Emit:
                 return ("tuple", [rt, rt])
             if m == "cmp":
                 return "Ordering"
+            if m == "map":
+                return ("Option", "Decimal")
             if m == "to_bits" and isinstance(rt, str):
                 return FLOAT_BITS[rt]
             if m in ("is_nan", "is_infinite"):
@@ -812,6 +825,20 @@ class Emit:
 
     def method(self, e, hint):
         _, recv, m, args = e
+        if m == "map" and len(args) == 1 and args[0][0] == "closure":
+            # Option::map with a pure closure
+            rt = self.type_of(recv, None)
+            if not (isinstance(rt, tuple) and rt[0] == "Option"):
+                raise Unsupported("map on a non-Option")
+            lr, xr = self.ex(recv, rt)
+            _, ps, body = args[0]
+            saved = dict(self.env)
+            self.env[ps[0]] = rt[1]
+            lb, xb = self.ex(body, hint[1] if isinstance(hint, tuple) else None)
+            self.env = saved
+            if lb:
+                raise Unsupported("effect inside a closure")
+            return lr, f"(Option.map (fun {ps[0]} => {xb}) ({xr}))"
         t = self.type_of(recv, hint)
         lr, xr = self.ex(recv, hint)
         ls, xs = list(lr), []
@@ -1043,6 +1070,8 @@ class Emit:
             if e[0] == "if":
                 # statement `if` (no value): may assign variables or return early
                 return self.if_stmt(e, rest, tail, ind, k)
+            if e[0] == "macro" and e[1] == "panic":
+                return f"{pad}Outcome.panic {self.panic_kind(e[2])}\n"      # diverges: nothing after it runs
             if e[0] == "macro":
                 return self.macro_stmt(e, ind) + self.stmts_term(rest, tail, ind, k)
             if e[0] == "call" and e[1][-1] in MUT_PARAMS and (e[1][-1] in self.sigs or e[1][-1] in EXTERNAL):
@@ -1167,6 +1196,15 @@ class Emit:
         body = self.stmts_term(rest, tail, ind, k)
         return pre + f"{pad}let {tup} ← (if {xc} then (do\n{thn}{pad}  ) else (do\n{els}{pad}  ) : Outcome _)\n" + body
 
+    @staticmethod
+    def panic_kind(toks):
+        names = [t[1] for t in toks if t[0] == "id"]
+        if "MaxNFracDigitsExceeded" in names:
+            return ".nfrac"
+        if "DivisionByZero" in names:
+            return ".divzero"
+        return ".overflow"        # `InternalOverflow` and the literal "Internal representation exceeded." message
+
     def macro_stmt(self, e, ind):
         pad = "  " * ind
         name = e[1]
@@ -1201,7 +1239,7 @@ class Emit:
             lc, xc = self.cond(c)
             pre = "".join(f"{pad}{l}\n" for l in lc)
             thn = self.block_term(th, ind + 1, k)
-            els = self.tail_term(el, ind + 1, k) if el[0] == "if" else self.block_term(el, ind + 1, k)
+            els = self.tail_term(el, ind + 1, k) if el[0] in ("if", "match") else self.block_term(el, ind + 1, k)
             return pre + f"{pad}if {xc} then\n{thn}{pad}else\n{els}"
         if e[0] == "match":
             return self.match_term(e, ind, k)
@@ -1210,7 +1248,7 @@ class Emit:
         if e[0] == "return":
             e = e[1]
         if e[0] == "macro" and e[1] == "panic":
-            return f"{pad}Outcome.panic .overflow\n"
+            return f"{pad}Outcome.panic {self.panic_kind(e[2])}\n"
         if e[0] == "macro" and e[1] == "unreachable":
             return f"{pad}Outcome.panic .unwrap\n"
         ls, x = self.ex(e, self.decl_ret if hasattr(self, "decl_ret") and not getattr(self, "in_loop", False) else self.ret)
@@ -1284,7 +1322,7 @@ class Emit:
 
 # ----------------------------------------------------------------------------- driver
 GROUP_IMPORTS = {"KPow": ["Fpdec.Gen.Consts"], "KDivRounded": ["Fpdec.Gen.KRound", "Fpdec.Gen.KPow", "Fpdec.Model.Core"],
-                 "KDecDiv": ["Fpdec.Gen.KDivRounded"], "KDecMul": ["Fpdec.Gen.KDivRounded", "Fpdec.Model.Decimal"], "KNorm": [],
+                 "KDecDiv": ["Fpdec.Gen.KDivRounded"], "KDecMul": ["Fpdec.Gen.KDivRounded", "Fpdec.Model.Decimal"], "KNorm": [], "KDecRound": ["Fpdec.Gen.KDivRounded", "Fpdec.Model.Decimal"],
                  "KFloat": ["Fpdec.Gen.KNorm", "Fpdec.Gen.Consts", "Fpdec.Model.Core", "Fpdec.Model.Decimal"], "KRem": ["Fpdec.Gen.KPow"],
                  "KWideDiv": ["Fpdec.Gen.KWide", "Fpdec.Gen.KPow", "Fpdec.Gen.Consts", "Fpdec.Model.Core"]}
 LOOP_FUEL.update({("normalize", 1): 256, ("approx_rational", 1): 32, ("rem", 1): 256,
@@ -1305,6 +1343,8 @@ KERNELS = [
     ("KDecDiv", "src/binops/div_rounded.rs", "checked_div_rounded", None),
     ("KDecMul", "src/binops/mul_rounded.rs", "checked_mul_rounded", None),
     ("KNorm", "src/lib.rs", "normalize", None),
+    ("KDecRound", "src/round.rs", "round", "Decimal", {"as": "decimal_round"}),
+    ("KDecRound", "src/round.rs", "checked_round", "Decimal", {"as": "decimal_checked_round"}),
     ("KFloat", "src/from_float.rs", "approx_rational", None),
     ("KRem", "src/binops/rem.rs", "rem", None),
     ("KFloat", "src/from_float.rs", "f64_decode", None),
